@@ -156,12 +156,17 @@ Qed.
 End Key.
 
 (* ---------------- the ISO-TP handler, seen from a key ---------------- *)
-Lemma find_free_slot_tstep pgn src dst r a b c tp l z : pgn <> 0 ->
-  find_free_slot r a b c tp = (l, z) -> tstep pgn src dst (now32 r) (r_slots r) l.
+(* [now] is the actual clock, or any value when the search does not evict *)
+Lemma find_free_slot_tstep_gen pgn src dst now r a b c tp l z : pgn <> 0 -> now = now32 r \/ l = r_slots r ->
+  find_free_slot r a b c tp = (l, z) -> tstep pgn src dst now (r_slots r) l.
 Proof.
-  intros Hnz FF. destruct (find_free_slot_char _ _ _ _ _ _ _ FF) as (R & L & [(-> & _)|(Hz & -> & _ & El)]).
+  intros Hnz NE FF. destruct NE as [-> | ->]; [|apply tstep_refl].
+  destruct (find_free_slot_char _ _ _ _ _ _ _ FF) as (R & L & [(-> & _)|(Hz & -> & _ & El)]).
   - apply tstep_refl. - apply tstep_zset. apply okstep_free; auto. apply not_protected_old. exact El.
 Qed.
+Lemma find_free_slot_tstep pgn src dst r a b c tp l z : pgn <> 0 ->
+  find_free_slot r a b c tp = (l, z) -> tstep pgn src dst (now32 r) (r_slots r) l.
+Proof. intros Hnz FF. eapply find_free_slot_tstep_gen; eauto. Qed.
 Lemma find_free_slot_tp_vul r a b c l z : find_free_slot r a b c true = (l, z) -> z < nslots r ->
   s_free (znth l z slot0) = true \/ s_tp (znth l z slot0) = true.
 Proof.
@@ -184,18 +189,23 @@ Ltac okstep_tac Hnz :=
           | match goal with V : _ \/ _ |- _ => destruct V as [V|V]; [apply not_protected_free; exact V | apply not_protected_tp; exact V] end ]
   | first [ intros _; apply key_match_tp; reflexivity | intros _; apply key_match_free; exact Hnz | intros X; exact X ] ].
 
-Lemma handle_tp_tstep pgn src dst r pgn' src' dst' len buf h r1 ev idx : pgn <> 0 ->
+Definition rts_table (r:rnode) (src dst tpgn:Z) : list slot :=
+  map (fun s => if negb (s_free s) && s_tp s && (s_src s =? src) && (s_dst s =? dst) && negb (s_pgn s =? tpgn) then free_slot s else s) (r_slots r).
+Lemma handle_tp_tstep_gen pgn src dst now r pgn' src' dst' len buf h r1 ev idx : pgn <> 0 ->
+  now = now32 r \/ (pgn' = c_TP_CM -> forall l z, find_free_slot (with_slots r (rts_table r src' dst' (le3 buf 5))) (le3 buf 5) src' dst' true = (l, z) -> l = rts_table r src' dst' (le3 buf 5)) ->
   handle_tp r pgn' src' dst' len buf = (h, r1, ev, idx) ->
-  tstep pgn src dst (now32 r) (r_slots r) (r_slots r1) /\
+  tstep pgn src dst now (r_slots r) (r_slots r1) /\
   (n_now (rn r1) = n_now (rn r) /\ r_q r1 = r_q r /\ n_pgn (rn r1) = n_pgn (rn r) /\ c_only_known (r_cfg r1) = c_only_known (r_cfg r)) /\
   (idx <? nslots r1 = true -> 0 <= idx /\ s_tp (get_slot r1 idx) = true).
 Proof.
-  intros Hnz H. unfold handle_tp in H. revert H. crack; intros H; injection H as E0 E1 E2 E3; subst h ev idx; subst r1.
+  intros Hnz NE H. unfold handle_tp in H. revert H. crack; intros H; injection H as E0 E1 E2 E3; subst h ev idx; subst r1.
   all: match goal with |- context [tstep _ _ _ _ (r_slots ?rr) _] => pose proof (find_tp_slot_spec src' dst' (r_slots rr) 0) as FT; cbv zeta in FT; rewrite Z.sub_0_r, Z.add_0_l in FT end.
   all: try match goal with E: find_free_slot (with_slots ?r0 ?l0) _ _ _ _ = (?l, ?z) |- _ =>
-         pose proof (find_free_slot_tstep pgn src dst _ _ _ _ _ _ _ Hnz E) as TS1'; pose proof (find_free_slot_tp_vul _ _ _ _ _ _ E) as VUL;
+         assert (TS1' : tstep pgn src dst now (r_slots (with_slots r0 l0)) l)
+           by (eapply (find_free_slot_tstep_gen pgn src dst now _ _ _ _ _ _ _ Hnz); [destruct NE as [-> | NE]; [left; reflexivity|right; match goal with Hq : (_ =? c_TP_CM) = true |- _ => exact (NE (proj1 (Z.eqb_eq _ _) Hq) _ _ E) end] | exact E]);
+         pose proof (find_free_slot_tp_vul _ _ _ _ _ _ E) as VUL;
          destruct (find_free_slot_char _ _ _ _ _ _ _ E) as (Z0 & L1 & _);
-         assert (TS0 : tstep pgn src dst (now32 r0) (r_slots r0) l0)
+         assert (TS0 : tstep pgn src dst now (r_slots r0) l0)
            by (apply tstep_map_free; [exact Hnz | intros s0 X; rewrite !andb_true_iff in X; tauto]);
          pose proof (tstep_trans _ _ _ _ _ _ _ TS0 TS1') as TS1;
          unfold nslots in Z0, VUL; cbn [r_slots with_slots] in Z0, VUL, L1; rewrite map_length in Z0, VUL, L1 end.
@@ -208,6 +218,13 @@ Proof.
   all: try (eapply tstep_trans; [exact TS1|]; apply tstep_zset; okstep_tac Hnz).
   all: try (apply tstep_zset; right; split; [apply not_protected_tp; exact TPS | first [intros _; apply key_match_tp; reflexivity | intros _; apply key_match_free; exact Hnz]]).
 Qed.
+Lemma handle_tp_tstep pgn src dst r pgn' src' dst' len buf h r1 ev idx : pgn <> 0 ->
+  handle_tp r pgn' src' dst' len buf = (h, r1, ev, idx) ->
+  tstep pgn src dst (now32 r) (r_slots r) (r_slots r1) /\
+  (n_now (rn r1) = n_now (rn r) /\ r_q r1 = r_q r /\ n_pgn (rn r1) = n_pgn (rn r) /\ c_only_known (r_cfg r1) = c_only_known (r_cfg r)) /\
+  (idx <? nslots r1 = true -> 0 <= idx /\ s_tp (get_slot r1 idx) = true).
+Proof. intros Hnz H. eapply handle_tp_tstep_gen; eauto. Qed.
+
 
 Lemma handle_tp_false r pgn src dst len buf r1 ev idx :
   handle_tp r pgn src dst len buf = (false, r1, ev, idx) -> r1 = r /\ ev = [] /\ (pgn =? c_TP_CM) || (pgn =? c_TP_DT) = false.
@@ -238,15 +255,16 @@ Lemma not_protected_other pgn src dst now s pgn' src' dst' :
 Proof. intros [F|K] N; [apply not_protected_free; auto|]. apply not_protected_key. eapply key_match_other; eauto. Qed.
 
 (* a frame of another key (PGN, source or destination differ) on the non-TP path *)
-Lemma rx_nontp_tstep pgn src dst r pri' pgn' src' dst' g r1 ev idx : pgn <> 0 -> ~ (pgn' = pgn /\ src' = src /\ dst' = dst) ->
+Lemma rx_nontp_tstep_gen pgn src dst now r pri' pgn' src' dst' g r1 ev idx : pgn <> 0 -> ~ (pgn' = pgn /\ src' = src /\ dst' = dst) ->
+  now = now32 r \/ (forall l z, find_free_slot r pgn' src' dst' false = (l, z) -> l = r_slots r) ->
   rx_nontp r pri' pgn' src' dst' g = (r1, ev, idx) ->
-  tstep pgn src dst (now32 r) (r_slots r) (r_slots r1) /\ n_now (rn r1) = n_now (rn r) /\ nslots r1 = nslots r /\
-  (idx <? nslots r1 = true -> 0 <= idx /\ ~ protected pgn src dst (now32 r) (get_slot r1 idx)).
+  tstep pgn src dst now (r_slots r) (r_slots r1) /\ n_now (rn r1) = n_now (rn r) /\ nslots r1 = nslots r /\
+  (idx <? nslots r1 = true -> 0 <= idx /\ ~ protected pgn src dst now (get_slot r1 idx)).
 Proof.
-  intros Hnz Hk H. unfold rx_nontp in H. destruct (check_known (n_pgn (rn r)) pgn') as [[known sys] fast]. cbv zeta in H.
+  intros Hnz Hk NE H. unfold rx_nontp in H. destruct (check_known (n_pgn (rn r)) pgn') as [[known sys] fast]. cbv zeta in H.
   assert (Triv : forall rr, r_slots rr = r_slots r -> n_now (rn rr) = n_now (rn r) ->
-            tstep pgn src dst (now32 r) (r_slots r) (r_slots rr) /\ n_now (rn rr) = n_now (rn r) /\ nslots rr = nslots r /\
-            (nslots r <? nslots rr = true -> 0 <= nslots r /\ ~ protected pgn src dst (now32 r) (get_slot rr (nslots r)))).
+            tstep pgn src dst now (r_slots r) (r_slots rr) /\ n_now (rn rr) = n_now (rn r) /\ nslots rr = nslots r /\
+            (nslots r <? nslots rr = true -> 0 <= nslots r /\ ~ protected pgn src dst now (get_slot rr (nslots r)))).
   { intros rr E1 E2. unfold nslots. rewrite E1. repeat split; auto; try apply tstep_refl; apply Z.ltb_lt in H0; lia. }
   destruct (negb (known || negb (c_only_known (r_cfg r)))); [injection H as <- <- <-; apply Triv; auto|].
   destruct (fast && negb (Z.land (byte (r_buf g) 0) 31 =? 0)).
@@ -254,7 +272,7 @@ Proof.
     destruct FC as (Fr & Fm & _). rewrite Z.sub_0_r, Z.add_0_l in *.
     destruct (i <? nslots r) eqn:Hi; [|injection H as <- <- <-; apply Triv; auto]. apply Z.ltb_lt in Hi. unfold nslots in Hi. specialize (Fm Hi).
     fold (znth (r_slots r) i slot0) in Fm. fold (get_slot r i) in Fm.
-    assert (NP : ~ protected pgn src dst (now32 r) (get_slot r i)) by (eapply not_protected_other; eauto).
+    assert (NP : ~ protected pgn src dst now (get_slot r i)) by (eapply not_protected_other; eauto).
     assert (KM : key_match (get_slot r i) pgn src dst = false) by (eapply key_match_other; eauto).
     destruct (s_last (get_slot r i) + 1 =? byte (r_buf g) 0).
     + rewrite mark_ready_eq in H. cbv zeta in H. rewrite get_slot_set_slot in H by (unfold nslots; lia). cbn [s_data s_len] in H.
@@ -266,14 +284,14 @@ Proof.
     + injection H as <- <- <-. autorewrite with rxs. split; [|split; [reflexivity|split; [reflexivity|]]].
       * apply tstep_zset. apply okstep_free; auto. * intros Hlt. apply Z.ltb_lt in Hlt. lia.
   - destruct (find_free_slot r pgn' src' dst' false) as [slots1 i] eqn:FF.
-    pose proof (find_free_slot_tstep pgn src dst _ _ _ _ _ _ _ Hnz FF) as TS1.
+    assert (TS1 : tstep pgn src dst now (r_slots r) slots1) by (eapply (find_free_slot_tstep_gen pgn src dst now _ _ _ _ _ _ _ Hnz); [destruct NE as [-> | NE]; [left; reflexivity|right; first [exact (NE _ _ FF) | exact (NE _ _ eq_refl)]] | exact FF]).
     destruct (find_free_slot_char _ _ _ _ _ _ _ FF) as (R & L1 & Ch).
     destruct (i <? nslots r) eqn:Hi.
     2:{ injection H as <- <- <-. cbn [r_slots with_slots rn]. split; [exact TS1|]. split; [reflexivity|].
         split; [unfold nslots; cbn [r_slots with_slots]; rewrite L1; reflexivity|].
         intros Hlt. apply Z.ltb_lt in Hlt. apply Z.ltb_ge in Hi. unfold nslots in *. cbn [r_slots with_slots] in Hlt. lia. }
     apply Z.ltb_lt in Hi. unfold nslots in Hi.
-    assert (NP : ~ protected pgn src dst (now32 r) (znth slots1 i slot0)).
+    assert (NP : ~ protected pgn src dst now (znth slots1 i slot0)).
     { destruct Ch as [(-> & _ & M)|(_ & -> & _ & _)].
       - eapply not_protected_other; [|exact Hk]. apply ff_match_key_true. apply M. unfold nslots. lia.
       - rewrite znth_zset_eq by lia. apply not_protected_free. reflexivity. }
@@ -291,21 +309,41 @@ Proof.
       rewrite get_slot_set_slot by (autorewrite with rxs; unfold nslots; cbn [r_slots with_slots]; lia). apply not_protected_key.
       match goal with |- key_match ?v _ _ _ = false => destruct (KM (s_free v) (s_ready v) (s_known v) (s_system v) (s_pri v) (s_len v) (s_data v) (s_last v) (s_time v) (s_tpmax v) (s_tpreq v) 1) as [X|X]; [exact X|discriminate] end.
 Qed.
+Lemma rx_nontp_tstep pgn src dst r pri' pgn' src' dst' g r1 ev idx : pgn <> 0 -> ~ (pgn' = pgn /\ src' = src /\ dst' = dst) ->
+  rx_nontp r pri' pgn' src' dst' g = (r1, ev, idx) ->
+  tstep pgn src dst (now32 r) (r_slots r) (r_slots r1) /\ n_now (rn r1) = n_now (rn r) /\ nslots r1 = nslots r /\
+  (idx <? nslots r1 = true -> 0 <= idx /\ ~ protected pgn src dst (now32 r) (get_slot r1 idx)).
+Proof. intros Hnz Hk H. eapply rx_nontp_tstep_gen; eauto. Qed.
 
-Lemma rx_frame_tstep f0 r g r1 ev idx : fpgn f0 <> 0 -> ~ touches_key f0 g -> rx_frame r g = (r1, ev, idx) ->
-  tstep (fpgn f0) (fsrc f0) (fdst f0) (now32 r) (r_slots r) (r_slots r1) /\ n_now (rn r1) = n_now (rn r) /\ nslots r1 = nslots r /\
-  (idx <? nslots r1 = true -> 0 <= idx /\ ~ protected (fpgn f0) (fsrc f0) (fdst f0) (now32 r) (get_slot r1 idx)).
+
+(* no eviction when frame g is handled: neither by the first-frame search nor by the search of an ISO-TP announcement *)
+Definition no_evict (r:rnode) (g:rxframe) : Prop :=
+  (fpgn g <> c_TP_CM -> forall l z, find_free_slot r (fpgn g) (fsrc g) (fdst g) false = (l, z) -> l = r_slots r) /\
+  (fpgn g = c_TP_CM -> forall l z, find_free_slot (with_slots r (rts_table r (fsrc g) (fdst g) (le3 (r_buf g) 5))) (le3 (r_buf g) 5) (fsrc g) (fdst g) true = (l, z) ->
+     l = rts_table r (fsrc g) (fdst g) (le3 (r_buf g) 5)).
+Lemma rx_frame_tstep_gen now f0 r g r1 ev idx : fpgn f0 <> 0 -> ~ touches_key f0 g -> now = now32 r \/ no_evict r g -> rx_frame r g = (r1, ev, idx) ->
+  tstep (fpgn f0) (fsrc f0) (fdst f0) now (r_slots r) (r_slots r1) /\ n_now (rn r1) = n_now (rn r) /\ nslots r1 = nslots r /\
+  (idx <? nslots r1 = true -> 0 <= idx /\ ~ protected (fpgn f0) (fsrc f0) (fdst f0) now (get_slot r1 idx)).
 Proof.
-  intros Hnz Ht H. rewrite rx_frame_eq in H. destruct (can_id_to_n2k (r_id g)) as [[[pri pgn] src] dst] eqn:Hid.
+  intros Hnz Ht NE H. rewrite rx_frame_eq in H. destruct (can_id_to_n2k (r_id g)) as [[[pri pgn] src] dst] eqn:Hid.
   destruct (fields_of _ _ _ _ _ Hid) as (F1 & F2 & F3 & F4).
   destruct (handle_tp r pgn src dst (r_len g) (r_buf g)) as [[[h r1'] ev'] idx'] eqn:HT. destruct h.
-  - injection H as <- <- <-. destruct (handle_tp_tstep (fpgn f0) (fsrc f0) (fdst f0) _ _ _ _ _ _ _ _ _ _ Hnz HT) as (A & (B & _) & C).
+  - injection H as <- <- <-. assert (NE1 : now = now32 r \/ (pgn = c_TP_CM -> forall l z, find_free_slot (with_slots r (rts_table r src dst (le3 (r_buf g) 5))) (le3 (r_buf g) 5) src dst true = (l, z) -> l = rts_table r src dst (le3 (r_buf g) 5)))
+      by (destruct NE as [-> | [_ NE]]; [left; reflexivity | right; rewrite <- F2, <- F3, <- F4; exact NE]).
+    destruct (handle_tp_tstep_gen (fpgn f0) (fsrc f0) (fdst f0) now _ _ _ _ _ _ _ _ _ _ Hnz NE1 HT) as (A & (B & _) & C).
     split; auto. split; auto. split; [unfold nslots; rewrite (proj1 A); reflexivity|]. intros Hlt. destruct (C Hlt) as [C1 C2]. split; auto.
     apply not_protected_tp. exact C2.
   - destruct (handle_tp_false _ _ _ _ _ _ _ _ _ HT) as (-> & -> & Hn).
-    apply (rx_nontp_tstep (fpgn f0) (fsrc f0) (fdst f0) r pri pgn src dst g r1 ev idx Hnz); auto.
+    assert (NE2 : now = now32 r \/ (forall l z, find_free_slot r pgn src dst false = (l, z) -> l = r_slots r))
+      by (destruct NE as [-> | [NE _]]; [left; reflexivity | right; apply orb_false_iff in Hn; destruct Hn as [Hn1 _]; apply Z.eqb_neq in Hn1; rewrite <- F2, <- F3, <- F4; apply NE; rewrite F2; exact Hn1]).
+    apply (rx_nontp_tstep_gen (fpgn f0) (fsrc f0) (fdst f0) now r pri pgn src dst g r1 ev idx Hnz); auto.
     intros (E1 & E2 & E3). apply Ht. split; [unfold is_tp_frame; rewrite F2; exact Hn|]. unfold same_key. rewrite F2, F3, F4. auto.
 Qed.
+Lemma rx_frame_tstep f0 r g r1 ev idx : fpgn f0 <> 0 -> ~ touches_key f0 g -> rx_frame r g = (r1, ev, idx) ->
+  tstep (fpgn f0) (fsrc f0) (fdst f0) (now32 r) (r_slots r) (r_slots r1) /\ n_now (rn r1) = n_now (rn r) /\ nslots r1 = nslots r /\
+  (idx <? nslots r1 = true -> 0 <= idx /\ ~ protected (fpgn f0) (fsrc f0) (fdst f0) (now32 r) (get_slot r1 idx)).
+Proof. intros Hnz Ht H. eapply rx_frame_tstep_gen; eauto. Qed.
+
 
 Lemma holds_run_protected r f0 cs i t : holds_run r f0 cs i t -> has_elapsed t c_Max_N2kMsgBuf_Time (now32 r) = false ->
   protected (fpgn f0) (fsrc f0) (fdst f0) (now32 r) (get_slot r i).
